@@ -148,6 +148,8 @@ def relax(p):
     elif isinstance(p, list):
         for v in p:
             relax(v)
+    elif isinstance(p, expect.Subset):
+        relax(p.items)
     return p
 
 
